@@ -2,10 +2,11 @@
 # Must-fail corpus: applies each selftest/<ID>/*.patch to /repo, runs the check, reverts.
 # m*.patch must yield VIOLATION (exit 1); benign*.patch must stay quiet (exit 0).
 # The evidence file of the clean tree is saved and restored (mutated runs must not leave evidence behind).
-ID="$1"; rc=0
+ID="$1"; ONLY="$2"; rc=0   # optional second argument: substring filter on the patch name
 [ -f /verif/evidence/$ID.json ] && cp /verif/evidence/$ID.json /tmp/.evidence.$ID.$$ 
 for p in /verif/selftest/$ID/*.patch; do
   n=$(basename $p .patch)
+  case "$n" in *"$ONLY"*) ;; *) continue;; esac
   git -C /repo apply "$p" || { echo "SELFTEST $ID $n: patch does not apply"; rc=1; continue; }
   out=$(/verif/check $ID quick 2>&1); code=$?
   git -C /repo checkout -- . 
